@@ -55,10 +55,11 @@ Definition anb_step (s : pst) (c : N) : pst + anb_res :=
   | SNum has_n =>
       if is_plus c || is_minus c then inr AnbSyntax
       else if is_dig c then
+        (* checked_mul / checked_add: a number that does not fit in i32 is a syntax error (after fix) *)
         let m := num s * 10 in
-        if negb (i32_ok m) then inr AnbOverflow else
+        if negb (i32_ok m) then inr AnbSyntax else
         let v := m + dig c in
-        if negb (i32_ok v) then inr AnbOverflow else
+        if negb (i32_ok v) then inr AnbSyntax else
         inl {| st := SNum has_n; step_size := step_size s; sign := sign s; num := v |}
       else if is_n c then
         if has_n then inr AnbSyntax
@@ -97,15 +98,14 @@ Definition parse_an_b (input : list N) : anb_res :=
       end
   end.
 
-(* is_matched on a 0-based index; None = arithmetic panic *)
+(* is_matched on a 0-based index, in 64-bit arithmetic (after fix): A and B are 32-bit, the index is a
+   sibling count, so nothing can overflow — the result is never None (kept as an option for the callers) *)
 Definition is_matched (a b : Z) (index0 : Z) : option bool :=
   let index := index0 + 1 in
   if a =? 0 then Some (index =? b)
   else
     let n := index - b in
-    if negb (i32_ok n) then None
-    else if (n =? i32_min) && (a =? -1) then None
-    else Some ((0 <=? Z.quot n a) && (Z.rem n a =? 0)).
+    Some ((0 <=? Z.quot n a) && (Z.rem n a =? 0)).
 
 (* the 1-based indices among [n] siblings a formula selects *)
 Fixpoint selected_from (a b : Z) (i : nat) (cnt : nat) : option (list Z) :=
